@@ -53,6 +53,19 @@ def plant_pairs(rng, tl: List[Dict[str, Any]], kind: str) -> List[Dict[str, Any]
     if not tl or rng.random() < 0.35:
         return tl
     out = list(tl)
+    if rng.random() < 0.25:
+        # a pair that is *almost* opposite, with small coefficients: it must not be folded
+        vs = sorted({v for t in out for v in t["c"]})[:2]
+        small = {v: rng.choice([1e-4, 2e-4, 5e-4, 1e-3]) * rng.choice([1, -1]) for v in vs}
+        k = rng.choice([0.05, 0.5, 0.0, 0.001])
+        t1 = {"c": dict(small), "k": k}
+        v0 = vs[0]
+        pert = dict(small)
+        pert[v0] = small[v0] * (1 + rng.choice([0.02, 0.05, -0.03, 0.1]))
+        t2 = {"c": {v: -c for v, c in pert.items()}, "k": rng.choice([k, -k])}
+        pos = rng.randint(0, len(out))
+        out[pos:pos] = [t1]
+        out.insert(rng.randint(pos + 1, len(out)), t2)
     for _ in range(rng.randint(1, 2)):
         t = rng.choice(out)
         mode = rng.choice(["equal", "negated", "unrelated", "zero"])
